@@ -129,6 +129,23 @@ def _call(fn, *a):
         return False, guard.crash_site(e)
 
 
+def _call_nopristine(fn, *a):
+    """like _call, inside a configuration that guard.pristine() would undo (the private CSS 2.1-only registry)"""
+    try:
+        signal.setitimer(signal.ITIMER_REAL, WD)
+        try:
+            return True, fn(*a)
+        finally:
+            signal.setitimer(signal.ITIMER_REAL, 0)
+            cssutils.log.raiseExceptions = True
+    except xml.dom.DOMException:
+        return False, 'dropped'
+    except guard.Timeout:
+        return False, 'timeout'
+    except Exception as e:  # noqa: BLE001
+        return False, guard.crash_site(e)
+
+
 def fmt(v):
     return {True: 'valid', False: 'invalid'}.get(v, v) if isinstance(v, bool) else str(v)
 
@@ -593,11 +610,21 @@ class Pair:
                             vtext = sp['lead'] + sp['val'] + sp['trail']
                             v = route(_r_ctor, sp['name'], vtext, prio)
                             self.compare('C13.routes', f'ord|route:Property()|{dev}', oid, pv, v, f'Property({sp["name"]!r}, {vtext!r}, {prio!r})')
-                if ctx == 'ord' and sp['inner_only'] and not sp['has_comment'] and isinstance(pv, bool):
+                if ctx == 'ord' and sp['inner_only'] and not sp['has_comment']:
+                    # the registry asked with the text as spelled.  Canonical text: the verdict of the DOM routes (for the simple
+                    # properties C13.grammar judges both against the reference instead); another spelling: the registry's own
+                    # answer for the canonical text
                     oid = f'ord.reg-raw|{id_}'
-                    if self.want(oid):
+                    if self.relevant(id_):
                         v = route(_r_registry, name, sp['val'])
-                        self.compare('C13.routes', f'ord|route:registry(raw text)|{dev}', oid, pv, v, f'cssutils.profile.validate({name!r}, {sp["val"]!r})')
+                        if id_ == 'canon':
+                            self.raw = summary['raw'] = v
+                            if self.want(oid) and isinstance(pv, bool) and name not in ref.SIMPLE:
+                                self.compare('C13.routes', 'ord|route:registry(raw text)|canonical', oid, pv, v,
+                                             f'cssutils.profile.validate({name!r}, {sp["val"]!r})')  # fmt: skip
+                        elif self.want(oid):
+                            self.compare('C13.routes', f'ord|route:registry(raw text)|{dev}', oid, self.raw, v,
+                                         f'cssutils.profile.validate({name!r}, {sp["val"]!r})')  # fmt: skip
                 if (not q or id_ == 'canon') and sp['value_only'] and sp['name'] == name:
                     vtext = sp['lead'] + sp['val'] + sp['trail']
                     for rname, fn in ORD_ROUTES if ctx == 'ord' else FF_ROUTES:
@@ -631,30 +658,92 @@ class Pair:
                     self.viol('C13.unknown', f'unknown-name-valid|ord|{self.cls}', 'unknown', 'invalid', 'valid')
                 if summary.get('ff') is True:
                     self.viol('C13.unknown', f'unknown-name-valid|ff|{self.cls}', 'unknown', 'invalid', 'valid')
-            # grammar, all registered profiles active
-            if name in ref.SIMPLE and self.want('grammar'):
-                self.grammar(b, 'grammar', 'grammar')
         return summary
 
-    def grammar(self, b, oid, counter):
+    def grammar(self, dom, raw, cfg, already=(), same_cfg=None, other_cfg=None):
+        """C13.grammar at two observation points: the verdict of the DOM routes (`dom`, the baseline of the pair) and the registry asked
+        with the canonical text (`raw`).  Both wrong = the table; only one wrong = what lies between them (the value is normalised
+        before it is validated).  One-step counterfactuals name the essential ingredient where there is one: the same value without
+        its plus sign (`same_cfg`: text -> (dom, raw) of this configuration), the same pair in the other configuration (`other_cfg`).
+        Returns the problems found (so that the CSS 2.1-only pass reports only what is new there)."""
         res, name, text = self.res, self.name, self.entry['text']
+        counter = 'grammar' if cfg == 'all-profiles' else 'grammar21'
         exp = ref.verdict(name, text)
         res.evaluations += 1
         res.clauses['C13.grammar'] += 1
         if exp is None:
             res.counters[counter + '.dont-care'] += 1
-            return
-        if counter == 'grammar' and exp is False and ref.css3_extension(name, text):
+            return set()
+        if cfg == 'all-profiles' and exp is False and ref.css3_extension(name, text):
             res.counters[counter + '.css3-dont-care'] += 1
-            return
+            return {'css3'}
         res.validated += 1
         res.counters[counter + ('.decided-valid' if exp else '.decided-invalid')] += 1
-        if (b is True) != exp:
-            what = 'rejects-valid' if exp else 'accepts-invalid'
-            ess = self.cls + ('=' + text.lower() if self.cls == 'keyword' else '')
-            cfg = 'all-profiles' if counter == 'grammar' else 'css21-only'
-            self.viol('C13.grammar', f'{cfg}|{what}|{name}|{ess}' + ('' if isinstance(b, bool) else '|' + fmt(b)), oid, fmt(exp), fmt(b),
-                      note=f'{name}: {text}')  # fmt: skip
+        d_ok = (dom is True) == exp
+        r_ok = (raw is True) == exp
+        if d_ok and r_ok:
+            return set()
+        what = 'rejects-valid' if exp else 'accepts-invalid'
+        ess = self.cls + ('=' + text.lower() if self.cls == 'keyword' else '')  # an ordinary keyword is the essential ingredient itself
+        if not d_ok and not r_ok:
+            key = f'table|{what}|{name}|{ess}'
+            bare = text.replace('+', '')
+            if exp and '+' in text and same_cfg and same_cfg.get(bare) == (True, True) and ref.verdict(name, bare) is True:
+                key = f'table|{what}|explicit-plus-sign|{ess}'  # the same value without "+" is accepted
+            elif exp and cfg == 'all-profiles' and other_cfg and other_cfg.get(text) == (True, True):
+                key = f'table|{what}|only-while-css3-profiles-are-registered|{ess}'  # accepted once only CSS 2.1 is registered
+        elif not d_ok:
+            key = f'dom-only|{what}|{ess}' + ('' if isinstance(dom, bool) else '|' + fmt(dom))
+        else:
+            key = f'registry-only|{what}|{ess}'
+        if key not in already:
+            oid = 'grammar' if cfg == 'all-profiles' else 'grammar21'
+            self.viol('C13.grammar', f'{cfg}|{key}', oid, fmt(exp), {'dom': fmt(dom), 'registry(raw text)': fmt(raw)}, note=f'{name}: {text}')
+        return {key}
+
+
+def _dom_and_raw(name, text):
+    """(Property(name, text).valid | 'dropped', registry verdict for the text as given, registry verdict for Property.value)"""
+    p = cssutils.css.Property(name, text)
+    raw = bool(cssutils.profile.validate(name, text))
+    if not p.wellformed:
+        return 'dropped', raw, None
+    return bool(p.valid), raw, bool(cssutils.profile.validate(name, p.value))
+
+
+def grammar_pass(res, name, items, tier, only=None):
+    """items: [(entry, dom verdict, raw verdict)] observed with all profiles active.  Observes the same pairs once more in a registry
+    that knows only CSS 2.1 (if that profile defines the name), then evaluates C13.grammar in both configurations.
+    `only`: judge only this value text (replay; the other items are the counterfactual partners)."""
+    obs_all = {e['text']: (dom, raw) for e, dom, raw in items}
+    obs_21 = {}
+    with OnlyCSS21() as known21:
+        if name in known21:
+            res.sets['grammar21.names'].add(name)
+            for entry, dom, raw in items:
+                pr = Pair(res, name, entry, tier)
+                ok, r = _call_nopristine(_dom_and_raw, name, entry['text'])
+                if not ok:
+                    if r != 'dropped':
+                        pr.crash('grammar21', r, entry['text'])
+                        continue
+                    ok2, raw21 = _call_nopristine(lambda: bool(cssutils.profile.validate(name, entry['text'])))
+                    r = ('dropped', raw21 if ok2 else False, None)
+                d21, raw21, ser21 = r
+                obs_21[entry['text']] = (d21, raw21)
+                res.outcomes.add(h64(('g21', entry['cls'], fmt(d21), raw21)))
+                if ser21 is not None and only in (None, entry['text']):
+                    pr.compare('C13.routes', 'css21-only|route:registry(Property.value)|canonical', 'grammar21', d21, ser21, entry['text'])
+        else:
+            res.counters['grammar21.names-not-in-css21-profile'] += 1
+    for entry, dom, raw in items:
+        if only not in (None, entry['text']):
+            continue
+        pr = Pair(res, name, entry, tier)
+        found = pr.grammar(dom, raw, 'all-profiles', same_cfg=obs_all, other_cfg=obs_21)
+        if entry['text'] in obs_21:
+            d21, raw21 = obs_21[entry['text']]
+            pr.grammar(d21, raw21, 'css21-only', already=found, same_cfg=obs_21)
 
 
 # ----------------------------------------------------------------------------------------
@@ -841,38 +930,26 @@ def resolution_cases():
 # grammar with only CSS 2.1 registered
 
 
-def _only_css21():
-    guard.pristine(profiles=True)
-    for p in list(cssutils.profile.profiles):
-        if p != CSS21:
-            cssutils.profile.removeProfile(p)
-    return set(cssutils.profile.knownNames)
+class OnlyCSS21:
+    """`with OnlyCSS21() as names:` - a private registry in which only 'CSS Level 2.1' is registered (every other profile
+    removed through removeProfile) takes the place of cssutils.profile; the shipped registry object is put back untouched."""
 
+    def __enter__(self):
+        guard.pristine(profiles=True)
+        from cssutils.profiles import Profiles
 
-def g21_case(res, name, entry, tier):
-    """precondition: registry reduced to CSS 2.1 (the caller restores it)"""
-    pr = Pair(res, name, entry, tier)
-    try:
-        signal.setitimer(signal.ITIMER_REAL, WD)
-        try:
-            p = cssutils.css.Property(name, entry['text'])
-            b = bool(p.valid) if p.wellformed else 'dropped'
-            r = bool(cssutils.profile.validate(name, p.value)) if p.wellformed else 'dropped'
-        finally:
-            signal.setitimer(signal.ITIMER_REAL, 0)
-    except xml.dom.DOMException:
-        b = r = 'dropped'
-    except guard.Timeout:
-        b = r = 'timeout'
-    except Exception as e:  # noqa: BLE001
-        b = r = guard.crash_site(e)
-    finally:
-        cssutils.log.raiseExceptions = True
-    if pr.crash('g21', b, entry['text']):
-        return
-    res.outcomes.add(h64(('g21', entry['cls'], fmt(b))))
-    pr.compare('C13.routes', 'css21-only|route:registry(Property.value)|canonical', 'g21', b, r, entry['text'])
-    pr.grammar(b, 'g21', 'grammar21')
+        self.orig = cssutils.profile
+        priv = Profiles(log=cssutils.log)
+        for p in list(priv.profiles):
+            if p != CSS21:
+                priv.removeProfile(p)
+        cssutils.profile = priv
+        return set(priv.knownNames)
+
+    def __exit__(self, *a):
+        cssutils.profile = self.orig
+        guard.pristine(profiles=True)
+        return False
 
 
 # ----------------------------------------------------------------------------------------
@@ -882,9 +959,6 @@ def g21_case(res, name, entry, tier):
 def plan(tier):
     names = all_names()
     shards = [['pair', n] for n in names]
-    simple = sorted(ref.SIMPLE)
-    for i in range(0, len(simple), 6):
-        shards.append(['g21', simple[i:i + 6]])
     for n in ref.UNKNOWN_NAMES:
         shards.append(['pair', n])
     shards.append(['resolution', None])
@@ -917,10 +991,14 @@ def run_shard(shard, tier, seed):
         m = menu(tier)
         if kind == 'pair':
             name = arg
-            verdicts = {}
+            verdicts, items = {}, []
             for i, entry in enumerate(m):
                 s = Pair(res, name, entry, tier).run()
                 verdicts[i] = s.get('ord')
+                if 'ord' in s:
+                    items.append((entry, s['ord'], s.get('raw')))
+            if name in ref.SIMPLE:
+                grammar_pass(res, name, items, tier)
             if any(v is True for v in verdicts.values()) and any(v is False for v in verdicts.values()):
                 res.sets['names.both-verdicts'].add(name)
             if name in cssutils.profile.knownNames:
@@ -928,18 +1006,6 @@ def run_shard(shard, tier, seed):
                 res.counters['conjunction.blocks'] += n
             k = h64(f'{seed}:{name}') % len(m)
             res.sample({'kind': 'pair', 'name': name, 'value': m[k]['text'], 'obs': 'ord.sp|name-upper'})
-        elif kind == 'g21':
-            try:
-                known21 = _only_css21()
-                for name in arg:
-                    if name not in known21:
-                        res.counters['grammar21.names-not-in-css21-profile'] += 1
-                        continue
-                    res.sets['grammar21.names'].add(name)
-                    for entry in m:
-                        g21_case(res, name, entry, tier)
-            finally:
-                guard.pristine(profiles=True)
         elif kind == 'resolution':
             for c in resolution_cases():
                 resolution_case(res, c)
@@ -970,12 +1036,16 @@ def replay(case, tier, seed):
         if k == 'pair':
             obs = case['obs']
             e = _entry(case['value'], tier)
-            if obs == 'g21':
-                try:
-                    _only_css21()
-                    g21_case(res, case['name'], e, tier)
-                finally:
-                    guard.pristine(profiles=True)
+            if obs in ('grammar', 'grammar21'):
+                scratch = Result(seed)
+                items = []
+                for t in dict.fromkeys([case['value'], case['value'].replace('+', '')]):
+                    e2 = _entry(t, tier)
+                    summ = Pair(scratch, case['name'], e2, tier, only='grammar').run()
+                    if 'ord' in summ:
+                        items.append((e2, summ['ord'], summ.get('raw')))
+                if items and items[0][0]['text'] == case['value'] and case['name'] in ref.SIMPLE:
+                    grammar_pass(res, case['name'], items, tier, only=case['value'])
             else:
                 Pair(res, case['name'], e, tier, only=obs).run()
         elif k == 'conj':
